@@ -57,7 +57,9 @@ StaysOnManifold ==
     /\ T.sampled_cot
 
 \* C02: n steps, flip, n steps returns to the start; the input state object is never modified
-RoundTrip == T.outcome = "ok" => T.roundtrip_ok
+\* (stress_ok: from hard states -- large momenta / steps, several solution branches -- every step that
+\*  returned was undone by flip + step; otherwise it has to raise)
+RoundTrip == (T.outcome = "ok" => T.roundtrip_ok) /\ T.stress_ok
 InputUntouched == T.input_untouched
 
 \* C06 (necessary condition): the displacement over a small step is eps * (dH/dp, -dH/dq)
